@@ -6,8 +6,8 @@
 2. Binding G: seeded sequential histories of real `copia hub-sync` runs by two clients (local-path target and
    host:root through the ssh stand-in), every run followed by a second run; names incl. nesting, spaces/quotes and a
    dot-file beginning with ".copia"; contents incl. empty and multi-buffer files.
-3. Binding S: the stale-listing window - client A's server is held at its first staging open (scheduling shim) while
-   client B's hub-sync runs to completion, then released.
+3. Binding S: the stale-listing window - client A's server is held at its first staging open, or at the moment it
+   asks for the commit lock (scheduling shim), while client B's hub-sync runs to completion, then released.
 4. TLC (HubSyncTrace.tla) decides every record.
 """
 import json
@@ -41,7 +41,7 @@ def run(tier):
             hexes[vlib.run_cmd([bins["vh_lib"], "b3", p]).stdout.decode().strip()[:12]] = c
         nh, nr = (60, 40) if tier == "quick" else (1500, 600)
         hist_jobs = [(vlib.seed() * 100 + i, 6) for i in range(nh)]
-        race_jobs = [(vlib.seed() * 77 + i, "path" if i % 2 == 0 else "host") for i in range(nr)]
+        race_jobs = [(vlib.seed() * 77 + i, "path" if i % 2 == 0 else "host", "stage" if i % 4 < 2 else "flock") for i in range(nr)]
         recs = hs.run_all(copia, shim, SHIMDIR, os.path.join(work, "x"), hexes, hist_jobs, race_jobs,
                           large=(3000, 13000) if tier == "quick" else (3000, 9000, 13000, 40000))
         log(f"[C13] large trees: " + ", ".join(f"{x['n']} files -> second run exit {x['second']['exit']}" for x in recs if x["kind"] == "large"))
